@@ -235,7 +235,7 @@ impl Prop for C03 {
 
     fn rule() -> String {
         "three generators: (c) net level: module handlers issue bursts of up to 60 send_in / schedule_in calls with delays from {0,1,2,2,5,10,10,100} us \
-         (unsorted, many ties) over direct gate connections, receivers log arrivals, the global arrival order must equal the RefSim order; (a) CQueue histories (C01 generator) checked against the stated tie rule (same-instant insertions FIFO first, then scheduling \
+         (unsorted, many ties) over direct gate connections, receivers log arrivals, the global arrival order must equal the RefSim order; (a) CQueue histories (C01 generator, incl. bursts of 65..104 adds at the current instant) checked against the stated tie rule (same-instant insertions FIFO first, then scheduling \
          order); (b) tie-biased event programs on a raw Runtime (bursts for one instant, zero-delay follow-ups while older events of the same instant \
          are pending, ties on year boundaries) executed under the default and up to 2 alternative (n,t) parameterisations and with 0/50/500 far-future \
          ballast events; oracle = RefSim order, identical in all executions. Non-trivial iff a dispatch faced a tie group >= 2 that contained both a \
